@@ -29,6 +29,7 @@ import (
 
 const kInsGoodRefused = "C19/install/doc/good-install-refused"
 const kInsManifestSigned = "C19/install/manifest-signed-flag-differs-from-verifier-outcome"
+
 // kInsOutsideCacheDigest is the sub-shape of kInsOutside found on the real code:
 // a declared sha256 that is a relative path makes CacheLookup (cache.go) read
 // <cache>/<digest>/artifact and RemoveAll(<cache>/<digest>) outside .registry/.
